@@ -34,6 +34,7 @@
 -/
 import CatVerif.Proofs.LineHist
 import CatVerif.Proofs.MidLine
+import CatVerif.Proofs.Readers
 namespace Cat
 open St
 
@@ -209,5 +210,12 @@ example (D : Desc) : Reading (runOps ⟨D, ({} : St)⟩ [.service { rd := some 1
   simp [runOps, apply, service, withMutex, serviceBody, unsolicitedEventsService, checkUnsolicitedBuffers,
     Gen.is_unsolicited_buffer_empty, commandService, processIdleState, readCmdChar, St.emit, Reading]
   cases D.hasMutex <;> simp [St.emit, toUpper, sc, uc, Gen.to_upper]
+
+/-- where a line begins, where it is given up and where its LF is taken: the six reading states'
+functions are the text regenerated from the source's character switches (translator item T8) -/
+theorem C01_framing_generated (D : Desc) :
+    errorState = Gen.error_state ∧ processIdleState = Gen.process_idle_state D ∧ parsePrefix = Gen.parse_prefix ∧
+    parseCommand = Gen.parse_command :=
+  ⟨errorState_generated, processIdleState_generated D, parsePrefix_generated, parseCommand_generated⟩
 
 end Cat
